@@ -28,6 +28,12 @@ class StreamNode(ConfigList):
     def stages(self):
         return self.builder.stages
 
+    def _get_child_kwargs(self, child=None):
+        # a stream only groups the documents of included file(s) until they are spliced/flattened,
+        # its own (technical) flags must not be inherited by them - otherwise e.g. lists coming from
+        # an included file would be merged element-wise instead of being replaced
+        return {}
+
     @namespace('ayns')
     def on_premerge_impl(self, path, into):
         self.clear()
